@@ -242,22 +242,25 @@ def reserved_names(c):
 
 def failure_classes(c, route, part, msg):
     """known-finding classes, each as narrow as the recorded defect:
-    part = what failed ("exc:<Name>" load/lookup exception, "values", "samples", "vectors", "stale-first", ...)"""
+    part = what failed ("exc:<Name>" load/lookup exception, "values", "samples", "vectors", ...).
+    Fixed findings (mixed-depth-keys 9e9d176, summary-zero-value-dropped 04fca50, reserved-column-name b5615dc,
+    db-resave-after-commit d19e038) have no class any more: their shapes are ordinary cases and their corpus cases
+    are regression:<signature> obligations."""
     labels = shape_labels(c)
     out = []
-    # a parameter column named like a reserved column: only the load / lookup exception that names the colliding key
-    if "reserved-name" in labels and route in ("csv", "agg", "fit", "resave", "scrape") \
-            and part in ("exc:KeyError", "exc:TypeError") \
-            and any(("'%s'" % n) in msg or "multiple values" in msg for n in reserved_names(c)):
-        out.append("reserved-name:table")
     # positional error vectors read against a model re-created from model.json: only the vectors
     if "creation-order-differs" in labels and route in ("summary_agg", "scrape_summary") and part == "vectors":
         out.append("recreated-order:summary_agg")
-    # second save of the SAMPLES rows after a commit: only "the first samples are still returned" (never the json rows,
-    # never an update sequence without a commit in between)
-    if c.get("kind") == "dbseq" and part == "stale-first" and route == "db" and any(c.get("commits") or [True]):
-        out.append("db-resave-after-commit")
     return out
+
+
+# corpus file (minimised case of a former finding) -> signature of the finding it guards
+REGRESSIONS = {
+    "C09-mixed-depth-keys.json": "mixed-depth-keys",
+    "C09-summary-zero-value.json": "summary-zero-value-dropped",
+    "C09-reserved-column-name.json": "reserved-column-name",
+    "C09-db-resave-after-commit.json": "db-resave-after-commit",
+}
 
 
 def gen_cases(ctx):
@@ -265,7 +268,7 @@ def gen_cases(ctx):
     thorough = ctx.tier == "thorough"
     g = Gen(rng, thorough)
     cases = []
-    n_samples = 130 if not thorough else 700
+    n_samples = 110 if not thorough else 700
     for _ in range(n_samples):
         tree, npri = g.tree()
         c = {"kind": "samples", "tree": tree, "npri": npri,
@@ -858,9 +861,10 @@ def run(ctx):
         "theorems are over every id-sorted walk with distinct paths (NoDup) and dot-free attribute names, C09_shapes / C09_tree_* "
         "give this for every well-formed model tree; text/float round trip is a hypothesis",
         "C09_tree_csv / C09_tree_summary / C09_tree_db are about the code as it is now (Variant.code_is_fixed = true, "
-        "dict_drops_zero = false); the *_refuted / *_partial theorems with fx = false document the pinned code before the fixes",
-        "C09_reserved_name_refuted: still true of the current code (known finding); names of different priors must differ only for "
-        "models whose unique paths are all single names (automatic without tuple priors)",
+        "dict_drops_zero = false, table_reads_by_position = true)",
+        "C09_tree_csv / C09_roundtrip_csv are about the reader since b5615dc (Variant.table_reads_by_position = true): no guard on "
+        "parameter names; names of different priors must differ only for models whose unique paths are all single names "
+        "(automatic without tuple priors); *_legacy_* theorems document the code before the repairs",
     ]
     built = ctx.build()
     cases = gen_cases(ctx)
@@ -873,7 +877,10 @@ def run(ctx):
         if os.path.isdir(cdir):
             for f in sorted(os.listdir(cdir)):
                 if f.endswith(".json"):
-                    cases.insert(0, json.load(open(os.path.join(cdir, f)))["case"])
+                    cc = json.load(open(os.path.join(cdir, f)))["case"]
+                    if f in REGRESSIONS:
+                        cc["regression"] = REGRESSIONS[f]
+                    cases.insert(0, cc)
     for i, c in enumerate(cases):
         c["idx"] = i
     fit_csv = [c for c in cases if c["kind"] == "fit" and c["csv"]]
@@ -907,6 +914,9 @@ def run(ctx):
             continue
         r = r["ok"]
         fails = {"samples": oracle_samples, "dbseq": oracle_dbseq, "fit": oracle_fit, "jsonhist": oracle_jsonhist}[c["kind"]](c, r)
+        if c.get("regression"):
+            ctx.obligation("regression:" + c["regression"], "regression", not fails,
+                           "" if not fails else "; ".join("%s/%s: %s" % (a, b, m[:160]) for a, b, m in fails[:3]))
         seen = set()
         for route, part, msg in fails:
             cl = failure_classes(c, route, part or "", msg)
@@ -938,15 +948,14 @@ MANIFEST = {
             "writer/reader (cells abstract), the summary JSON form and EfficientSamples (database): for every well-formed model tree "
             "and every sample list the reloaded samples give the same value per parameter, log-likelihood, log-prior and weight in "
             "order -- database rows unconditionally (all samples, the minimised list, a scraped directory), csv and summary for the "
-            "code as it is now under the single guard 'no top-level parameter named like a reserved column' (kept as a refuted full "
-            "statement / known finding); value per path is independent of the prior numbering of a re-created model; hence the same "
+            "code as it is now without any guard on parameter names (the earlier failures are kept as *_legacy_refuted statements and "
+            "regression obligations); named json rows of a database fit: the last save wins for every save history; value per path is independent of the prior numbering of a re-created model; hence the same "
             "best-fit vector; plus vm_compute correspondence of keys / lookups / exceptions with the running code on generated model "
             "shapes x extreme floats (Python and numpy) over csv, re-saved csv, aggregator, summary, database, scrape and latent "
             "routes and a direct property oracle incl. real fits run twice",
     "note": "Trusted: Coq kernel + vm_compute, the correspondence harness; the text layer (decimal text of floats, padding, JSON, "
             "numpy, sqlite) is a hypothesis of the theorems and is checked by the oracle only, bit for bit; medians and error "
             "estimates are compared by the oracle only (no theorem); model.json/database round trip of the model itself is C08. "
-            "Known findings: reserved column names, positional error vectors read against a re-created model, stale samples after "
-            "a second database save.",
+            "Known finding: positional error vectors of the summary read against a re-created model.",
     "technique": "machine-checked proof in Coq (hand-written executable model) + vm_compute correspondence + property oracle",
 }
